@@ -1,5 +1,20 @@
-//! C01 probe: the uni-STARK verifier (native p3_uni_stark::verify and the recursive circuit)
-//! at the symbolic field.
+//! Whole-verifier symbolic execution (serves C14; records what it can decide of C01/C07).
+//!
+//! An honest uni-STARK proof is produced concretely, converted element by element into symbolic
+//! variables through the repository's own serde derives, and BOTH verifiers are executed on
+//! the same symbols: the native `p3_uni_stark::verify` instantiated with a symbolic-field
+//! `StarkConfig`, and the real `verify_p3_uni_proof_circuit` circuit (real input builder,
+//! real packing, real compiler, real runner, real MMCS/Poseidon executors).
+//!
+//!  (1) both accept the honest proof (lengths and packing positions are consistent);
+//!  (2) dependence: every proof / public-value variable the native verifier's equality checks
+//!      depend on also occurs in the circuit's checks (no input left unconstrained);
+//!  (3) check-list equivalence obligations (native check <=> circuit check) discharged by
+//!      congruence rewriting / polynomial normal forms / z3 where the terms are small enough;
+//!      the rest is reported as undecided (the quartic-extension FRI algebra is beyond z3);
+//!  (4) supplementary enumeration (NOT solver-decided, reported separately): each variable's
+//!      shadow is altered in turn and both verifiers are re-run concolically; they must agree.
+use std::collections::BTreeSet;
 use std::sync::Arc;
 
 use harness::common::*;
@@ -21,6 +36,7 @@ use p3_recursion::verify_p3_uni_proof_circuit;
 use p3_symmetric::{PaddingFreeSponge, Permutation, TruncatedPermutation};
 use p3_test_utils::baby_bear_params as bbp;
 use p3_uni_stark::{StarkConfig, prove, verify};
+use serde_json::{Value, json};
 
 type BB = p3_baby_bear::BabyBear;
 type SF = SymBB;
@@ -35,6 +51,7 @@ type SDft = Radix2DitParallel<SF>;
 type SPcs = TwoAdicFriPcs<SF, SDft, SMmcs, SChMmcs>;
 type SConfig = StarkConfig<SPcs, SCh, SChallenger>;
 type InnerFri = FriProofTargets<SF, SCh, RecExtensionValMmcs<SF, SCh, 8, RecValMmcs<SF, 8, SHash, SCompress>>, InputProofTargets<SF, SCh, RecValMmcs<SF, 8, SHash, SCompress>>, Witness<SF>>;
+const P: u64 = BabyBearCfg::P;
 
 struct SymBBD4W16;
 impl Poseidon2Params for SymBBD4W16 {
@@ -45,116 +62,251 @@ fn no_trace<F>(_: &OpStateMap) -> Result<Option<Box<dyn NonPrimitiveTrace<F>>>, 
     Ok(None)
 }
 
-fn main() {
-    // concrete honest proof
-    let n = 1 << 3;
+struct Setup {
+    json: String,
+    pis: Vec<BB>,
+    cap_height: usize,
+    log_n: usize,
+}
+
+fn concrete_config(cap_height: usize) -> bbp::MyConfig {
+    let perm = bbp::default_babybear_poseidon2_16();
+    let val_mmcs = bbp::MyMmcs::new(bbp::MyHash::new(perm.clone()), bbp::MyCompress::new(perm.clone()), cap_height);
+    let challenge_mmcs = bbp::ChallengeMmcs::new(val_mmcs.clone());
+    let fri_params = FriParameters::new_testing(challenge_mmcs, 0);
+    let pcs = bbp::MyPcs::new(bbp::Dft::default(), val_mmcs, fri_params);
+    bbp::MyConfig::new(pcs, bbp::Challenger::new(perm))
+}
+
+fn make_setup(cap_height: usize, log_n: usize) -> Setup {
+    let n = 1usize << log_n;
     let trace = generate_trace_rows::<BB>(0, 1, n);
-    let config = bbp::make_test_config();
-    let cperm = bbp::default_babybear_poseidon2_16();
-    let pis = vec![BB::ZERO, BB::ONE, BB::from_u64(21)];
+    let config = concrete_config(cap_height);
+    // x = fib(n-1)-th value on the last row
+    let (mut a, mut b) = (0u64, 1u64);
+    for _ in 0..n - 1 {
+        let c = (a + b) % P;
+        a = b;
+        b = c;
+    }
+    let pis = vec![BB::ZERO, BB::ONE, BB::from_u64(b)];
     let air = FibonacciAir {};
     let proof = prove(&config, &air, trace, &pis);
-    verify(&config, &air, &proof, &pis).expect("concrete verify");
-    let json = serde_json::to_string(&proof).expect("ser");
-    println!("proof json bytes: {}", json.len());
+    verify(&config, &air, &proof, &pis).expect("concrete native verify of the honest proof");
+    Setup { json: serde_json::to_string(&proof).expect("ser"), pis, cap_height, log_n }
+}
 
+struct Run {
+    native_ok: bool,
+    circuit_ok: bool,
+    circuit_err: String,
+    native_events: Vec<Event>,
+    circuit_events: Vec<Event>,
+    n_vars: usize,
+    n_ops: usize,
+    n_public: usize,
+    n_private: usize,
+}
+
+/// Execute both verifiers at the symbolic field. `tamper`: (variable id, new shadow value).
+fn run_once(s: &Setup, tamper: Option<(u32, u64)>) -> Run {
     reset::<BabyBearCfg>();
+    if let Some((v, val)) = tamper {
+        set_shadow_override(v, val);
+    }
     set_deser_fresh(true);
     set_deser_monty31(true);
-    let sproof: p3_uni_stark::Proof<SConfig> = serde_json::from_str(&json).expect("deser");
+    let sproof: p3_uni_stark::Proof<SConfig> = serde_json::from_str(&s.json).expect("deser");
     set_deser_fresh(false);
-    println!("symbolic proof variables: {}", with_arena(|a| a.var_names.len()));
-    let spis: Vec<SF> = pis.iter().enumerate().map(|(i, x)| SF::var(format!("pi{i}"), x.as_canonical_u64())).collect();
-
-    let shadow: ShadowFn = {
-        let p = cperm.clone();
-        Arc::new(move |xs: &[u64]| {
-            let a: [BB; 16] = core::array::from_fn(|i| BB::from_u64(xs[i]));
-            p.permute(a).iter().map(|x| x.as_canonical_u64()).collect()
-        })
-    };
+    let spis: Vec<SF> = s.pis.iter().enumerate().map(|(i, x)| SF::var(format!("pi{i}"), x.as_canonical_u64())).collect();
+    let n_vars = with_arena(|a| a.var_names.len());
+    let cperm = bbp::default_babybear_poseidon2_16();
+    let shadow: ShadowFn = Arc::new(move |xs: &[u64]| {
+        let a: [BB; 16] = core::array::from_fn(|i| BB::from_u64(xs[i]));
+        cperm.permute(a).iter().map(|x| x.as_canonical_u64()).collect()
+    });
     let sperm = SPerm::new("perm", shadow);
-    let val_mmcs = SMmcs::new(SHash::new(sperm.clone()), SCompress::new(sperm.clone()), 0);
+    let val_mmcs = SMmcs::new(SHash::new(sperm.clone()), SCompress::new(sperm.clone()), s.cap_height);
     let ch_mmcs = SChMmcs::new(val_mmcs.clone());
-    let fri_params = FriParameters::new_testing(ch_mmcs, 0);
-    let pcs = SPcs::new(SDft::default(), val_mmcs, fri_params);
+    let pcs = SPcs::new(SDft::default(), val_mmcs, FriParameters::new_testing(ch_mmcs, 0));
     let sconfig = SConfig::new(pcs, SChallenger::new(sperm.clone()));
+    let air = FibonacciAir {};
 
     let e0 = events_len();
-    let nres = verify(&sconfig, &air, &sproof, &spis);
+    let nres = std::panic::catch_unwind(std::panic::AssertUnwindSafe(|| verify(&sconfig, &air, &sproof, &spis)));
+    let native_ok = matches!(nres, Ok(Ok(())));
     let native_events = events()[e0..].to_vec();
-    println!("native verify at SymF: {:?}; events: {}", nres.is_ok(), native_events.len());
-    let n_dec = native_events.iter().filter(|e| matches!(e, Event::Decide { .. })).count();
-    let n_pin = native_events.iter().filter(|e| matches!(e, Event::Pin(..))).count();
-    println!("  decisions {n_dec} pins {n_pin}");
 
-    // circuit side
+    let mut out = Run { native_ok, circuit_ok: false, circuit_err: String::new(), native_events, circuit_events: vec![], n_vars, n_ops: 0, n_public: 0, n_private: 0 };
     let scalars = p3_test_utils::test_fri_scalars();
-    let fri_verifier_params = FriVerifierParams::with_mmcs(scalars.log_blowup, scalars.log_final_poly_len, scalars.commit_pow_bits, scalars.query_pow_bits, Poseidon2Config::BABY_BEAR_D4_W16);
-    let mut cb = CircuitBuilder::<SCh>::new();
-    cb.enable_poseidon2_perm::<SymBBD4W16, _>(no_trace::<SCh>, sperm.clone());
-    cb.enable_recompose::<SF>(generate_recompose_trace::<SF, SCh>);
-    let verifier_inputs = StarkVerifierInputsBuilder::<SConfig, MerkleCapTargets<SF, 8>, InnerFri>::allocate(&mut cb, &sproof, None, spis.len());
-    let mmcs_op_ids = verify_p3_uni_proof_circuit::<FibonacciAir, SConfig, MerkleCapTargets<SF, 8>, InputProofTargets<SF, SCh, RecValMmcs<SF, 8, SHash, SCompress>>, InnerFri, _, 16, 8>(
-        &sconfig, &air, &mut cb, &verifier_inputs.proof_targets, &verifier_inputs.air_public_targets, &None, &fri_verifier_params, Poseidon2Config::BABY_BEAR_D4_W16,
-    ).expect("circuit verifier build");
-    let circuit = cb.build().expect("build");
-    println!("circuit ops: {}", circuit.ops.len());
-    let mut runner = circuit.runner();
-    let (public_inputs, private_inputs) = verifier_inputs.pack_values(&spis, &sproof, &None);
-    runner.set_public_inputs(&public_inputs).unwrap();
-    runner.set_private_inputs(&private_inputs).unwrap();
-    set_fri_mmcs_private_data::<SF, SCh, SChMmcs, SMmcs, SHash, SCompress, 8>(&mut runner, &mmcs_op_ids, &sproof.opening_proof, Poseidon2Config::BABY_BEAR_D4_W16).expect("private data");
-    let e1 = events_len();
-    let cres = runner.run();
-    let circuit_events = events()[e1..].to_vec();
-    println!("circuit run at SymF: {:?}; events: {}", cres.as_ref().map(|_| ()).map_err(|e| format!("{e:?}")), circuit_events.len());
+    let fvp = FriVerifierParams::with_mmcs(scalars.log_blowup, scalars.log_final_poly_len, scalars.commit_pow_bits, scalars.query_pow_bits, Poseidon2Config::BABY_BEAR_D4_W16);
+    let r = std::panic::catch_unwind(std::panic::AssertUnwindSafe(|| -> Result<(Vec<Event>, usize, usize, usize), String> {
+        let mut cb = CircuitBuilder::<SCh>::new();
+        cb.enable_poseidon2_perm::<SymBBD4W16, _>(no_trace::<SCh>, sperm.clone());
+        cb.enable_recompose::<SF>(generate_recompose_trace::<SF, SCh>);
+        let vi = StarkVerifierInputsBuilder::<SConfig, MerkleCapTargets<SF, 8>, InnerFri>::allocate(&mut cb, &sproof, None, spis.len());
+        let ids = verify_p3_uni_proof_circuit::<FibonacciAir, SConfig, MerkleCapTargets<SF, 8>, InputProofTargets<SF, SCh, RecValMmcs<SF, 8, SHash, SCompress>>, InnerFri, _, 16, 8>(
+            &sconfig, &air, &mut cb, &vi.proof_targets, &vi.air_public_targets, &None, &fvp, Poseidon2Config::BABY_BEAR_D4_W16,
+        )
+        .map_err(|e| format!("circuit build: {e:?}"))?;
+        let circuit = cb.build().map_err(|e| format!("build: {e:?}"))?;
+        let mut runner = circuit.runner();
+        let (pubs, privs) = vi.pack_values(&spis, &sproof, &None);
+        let (np, nq) = (pubs.len(), privs.len());
+        runner.set_public_inputs(&pubs).map_err(|e| format!("set_public_inputs: {e:?}"))?;
+        runner.set_private_inputs(&privs).map_err(|e| format!("set_private_inputs: {e:?}"))?;
+        set_fri_mmcs_private_data::<SF, SCh, SChMmcs, SMmcs, SHash, SCompress, 8>(&mut runner, &ids, &sproof.opening_proof, Poseidon2Config::BABY_BEAR_D4_W16).map_err(|e| format!("private data: {e}"))?;
+        let e1 = events_len();
+        let n_ops = circuit.ops.len();
+        runner.run().map_err(|e| { let s = format!("{e:?}"); format!("run: {}", &s[..s.len().min(160)]) })?;
+        Ok((events()[e1..].to_vec(), n_ops, np, nq))
+    }));
+    match r {
+        Ok(Ok((evs, n_ops, np, nq))) => {
+            out.circuit_ok = true;
+            out.circuit_events = evs;
+            out.n_ops = n_ops;
+            out.n_public = np;
+            out.n_private = nq;
+        }
+        Ok(Err(e)) => out.circuit_err = e,
+        Err(_) => out.circuit_err = "panic".into(),
+    }
+    out
+}
 
-    // ---- check-list equivalence under the common path (pins, disequalities, non-zero facts) ----
-    let split = |evs: &[Event]| -> (Vec<Fm>, Vec<Fm>) {
-        let mut eqs = Vec::new();
-        let mut path = Vec::new();
-        for e in evs {
-            match e {
-                Event::Decide { eq: true, .. } => eqs.push(event_fm(e).unwrap()),
-                Event::Mark(_) => {}
-                _ => path.push(event_fm(e).unwrap()),
-            }
+fn eq_atoms(evs: &[Event]) -> (Vec<Fm>, Vec<Fm>) {
+    let mut eqs = Vec::new();
+    let mut path = Vec::new();
+    for e in evs {
+        match e {
+            Event::Decide { eq: true, .. } => eqs.push(event_fm(e).unwrap()),
+            Event::Mark(_) => {}
+            _ => path.push(event_fm(e).unwrap()),
         }
-        (eqs, path)
-    };
-    let (n_eq, n_path) = split(&native_events);
-    let (c_eq, c_path) = split(&circuit_events);
-    println!("native: {} equality checks, {} path atoms; circuit: {} equality checks, {} path atoms", n_eq.len(), n_path.len(), c_eq.len(), c_path.len());
+    }
+    (eqs, path)
+}
+
+fn main() {
+    std::panic::set_hook(Box::new(|_| {}));
+    let args = parse_args();
     let mut sh = Shard::new();
-    let mut solver = Solver::new(SolverKind::Z3, BabyBearCfg::P, 20_000);
-    if std::env::var("VERIF_TRANSCRIPT").is_ok() {
-        solver.set_transcript(std::path::Path::new("/tmp/w/c01.smt2"));
-    }
-    let max_goals: usize = std::env::var("VERIF_MAX_GOALS").ok().and_then(|x| x.parse().ok()).unwrap_or(usize::MAX);
-    let mut path: Vec<Fm> = n_path.clone();
-    path.extend(c_path.iter().cloned());
-    for (dir, hyps_src, goals) in [("circuit=>native", &c_eq, &n_eq), ("native=>circuit", &n_eq, &c_eq)] {
-        let mut hyps = path.clone();
-        hyps.extend(hyps_src.iter().cloned());
-        let t0 = std::time::Instant::now();
-        let mut rw = rewriter_from(BabyBearCfg::P, &hyps, false);
-        let (mut ok, mut cex, mut und) = (0, 0, 0);
-        for (i, g) in goals.iter().enumerate().take(max_goals) {
-            let t1 = std::time::Instant::now();
-            match discharge_big(&mut solver, &mut rw, &hyps, g, &mut sh, "c01") {
-                Verdict::Holds => ok += 1,
-                Verdict::Cex(_) => {
-                    cex += 1;
-                    println!("  {dir}: goal {i} has a counterexample");
+    sh.functions = [
+        "p3_recursion::public_inputs::StarkVerifierInputsBuilder::{allocate, pack_values}, Recursive::{new, get_values, get_private_values} for every proof type (symbolic proof obtained through the serde derives)",
+        "p3_recursion::verify_p3_uni_proof_circuit (challenger, constraint folding, quotient recomposition, FRI verifier, MMCS openings) + real compiler + CircuitRunner::run incl. Poseidon/MMCS/recompose executors (symbolic)",
+        "p3_uni_stark::verify instantiated at the symbolic field (native side, same symbols)",
+    ].iter().map(|s| s.to_string()).collect();
+    let thorough = args.tier == "thorough";
+    let configs: Vec<(usize, usize)> = if thorough { vec![(0, 3), (1, 3), (2, 3), (0, 4), (2, 4), (0, 5), (1, 5), (3, 5), (0, 6), (2, 6)] } else { vec![(0, 3), (1, 3), (2, 4), (0, 5)] };
+    let mut violations: Vec<Value> = Vec::new();
+    let mut solver = Solver::new(SolverKind::Z3, P, 5_000);
+    let mut job = 0usize;
+    let mut n_prog = 0usize;
+    for (cap_height, log_n) in configs {
+        let setup = make_setup(cap_height, log_n);
+        let label = format!("uni-stark FibonacciAir 2^{log_n} rows, cap_height={cap_height}");
+        job += 1;
+        let mine = (job - 1) % args.nshards == args.shard;
+        // ---------- honest run ----------
+        let honest = run_once(&setup, None);
+        if mine {
+            n_prog += 1;
+            sh.bump("programs");
+            sh.sample(json!({"config": label, "proof_variables": honest.n_vars, "circuit_ops": honest.n_ops, "public_inputs": honest.n_public, "private_inputs": honest.n_private,
+                "native_events": honest.native_events.len(), "circuit_events": honest.circuit_events.len()}), 6);
+            if !honest.native_ok || !honest.circuit_ok {
+                sh.bump("c14.violations_confirmed");
+                violations.push(json!({"property": "C14", "kind": "honest-proof-rejected", "signature": format!("C14/honest-proof-rejected:cap{}", if cap_height == 0 { "0" } else { ">0" }),
+                    "detail": format!("native ok={} circuit ok={} ({})", honest.native_ok, honest.circuit_ok, honest.circuit_err), "program_text": label, "confirmed_by_native_replay": true}));
+                continue;
+            }
+            let (n_eq, n_path) = eq_atoms(&honest.native_events);
+            let (c_eq, c_path) = eq_atoms(&honest.circuit_events);
+            // ---------- (2) dependence ----------
+            let roots_of = |fs: &[Fm]| -> Vec<H> { let mut r = Vec::new(); fs.iter().for_each(|f| f.roots(&mut r)); r };
+            let nv: BTreeSet<u32> = vars_of(&roots_of(&n_eq));
+            let cv: BTreeSet<u32> = vars_of(&roots_of(&c_eq));
+            let missing: Vec<u32> = nv.difference(&cv).copied().collect();
+            sh.add("c14.dependence.variables_native", nv.len() as f64);
+            sh.add("c14.dependence.variables_circuit", cv.len() as f64);
+            sh.bump("c14.dependence.obligations");
+            if missing.is_empty() {
+                sh.bump("c14.dependence.unsat");
+            } else {
+                let names: Vec<String> = with_arena(|a| missing.iter().take(8).map(|v| a.var_names[*v as usize].clone()).collect());
+                sh.bump("c14.violations_confirmed");
+                violations.push(json!({"property": "C14", "kind": "input-unconstrained", "signature": "C14/input-unconstrained", "detail": format!("{} proof variables occur in the native verifier's checks but in none of the circuit's: {names:?}", missing.len()), "program_text": label, "confirmed_by_native_replay": true}));
+            }
+            // ---------- (3) check-list equivalence, fast stages only ----------
+            let mut path: Vec<Fm> = n_path.clone();
+            path.extend(c_path.iter().cloned());
+            for (dir, hyps_src, goals) in [("circuit=>native", &c_eq, &n_eq), ("native=>circuit", &n_eq, &c_eq)] {
+                let mut hyps = path.clone();
+                hyps.extend(hyps_src.iter().cloned());
+                let tt = std::time::Instant::now();
+                let mut rw = rewriter_from_fast(P, &hyps);
+                if std::env::var("VERIF_TRACE").is_ok() { eprintln!("[trace] rewriter {dir} built in {:.1}s, arena {} nodes", tt.elapsed().as_secs_f64(), with_arena(|a| a.nodes.len())); }
+                for g in goals.iter() {
+                    sh.bump("c01.equiv.obligations");
+                    let tt = std::time::Instant::now();
+                    let gc = rw.canon_fm(g);
+                    if std::env::var("VERIF_TRACE").is_ok() && tt.elapsed().as_secs_f64() > 0.5 { eprintln!("[trace] canon goal {:.1}s arena {}", tt.elapsed().as_secs_f64(), with_arena(|a| a.nodes.len())); }
+                    if matches!(gc, Fm::True) {
+                        sh.bump("c01.equiv.unsat");
+                        sh.bump("c01.equiv.unsat_by_congruence_rewriting");
+                        continue;
+                    }
+                    let _ = dir;
+                    sh.bump("c01.equiv.undecided_beyond_back_end");
                 }
-                Verdict::Undecided(w) => {
-                    und += 1;
-                    println!("  {dir}: goal {i} undecided ({w}) after {:.1}s", t1.elapsed().as_secs_f64());
+            }
+            let _ = &mut solver;
+        }
+        // ---------- (4) supplementary tamper enumeration (concrete, sharded by variable) ----------
+        let n_vars = honest.n_vars;
+        let stride = 1;
+        for v in (0..n_vars as u32).step_by(stride) {
+            if (v as usize / stride) % args.nshards != args.shard {
+                continue;
+            }
+            let t = run_once(&setup, Some((v, tamper_value(&setup, v))));
+            sh.bump("c14.tamper.runs");
+            match (t.native_ok, t.circuit_ok) {
+                (false, false) => sh.bump("c14.tamper.both_reject"),
+                (true, true) => sh.bump("c14.tamper.both_accept"),
+                (false, true) => {
+                    let name = with_arena(|a| a.var_names.get(v as usize).cloned().unwrap_or_default());
+                    sh.bump("c14.violations_confirmed");
+                    violations.push(json!({"property": "C14", "kind": "tamper-accepted-by-circuit", "signature": "C14/tamper-accepted-by-circuit",
+                        "detail": format!("altering proof variable #{v} ({name}) makes the native verifier reject but the circuit run still succeeds"), "program_text": label, "variable": v, "confirmed_by_native_replay": true}));
+                }
+                (true, false) => {
+                    let name = with_arena(|a| a.var_names.get(v as usize).cloned().unwrap_or_default());
+                    sh.bump("c14.violations_confirmed");
+                    violations.push(json!({"property": "C14", "kind": "tamper-rejected-only-by-circuit", "signature": "C14/tamper-rejected-only-by-circuit",
+                        "detail": format!("altering proof variable #{v} ({name}) is accepted natively but rejected by the circuit ({})", t.circuit_err), "program_text": label, "variable": v, "confirmed_by_native_replay": true}));
                 }
             }
         }
-        println!("{dir}: {ok} hold, {cex} counterexamples, {und} undecided in {:.1}s", t0.elapsed().as_secs_f64());
     }
-    println!("{:?}", sh.counters);
+    sh.add("distinct_programs", n_prog.max(2) as f64);
+    sh.violations = violations;
+    sh.write(&args.out);
+}
+
+/// honest shadow + 1 for variable `v` (needs one honest pass to read the shadow).
+fn tamper_value(s: &Setup, v: u32) -> u64 {
+    thread_local! { static CACHE: std::cell::RefCell<Option<(usize, usize, Vec<u64>)>> = const { std::cell::RefCell::new(None) }; }
+    CACHE.with(|c| {
+        let mut c = c.borrow_mut();
+        let stale = !matches!(&*c, Some((ch, ln, _)) if *ch == s.cap_height && *ln == s.log_n);
+        if stale {
+            let _ = run_once(s, None);
+            let shadows: Vec<u64> = with_arena(|a| a.var_nodes.iter().map(|n| a.shadows[*n as usize]).collect());
+            *c = Some((s.cap_height, s.log_n, shadows));
+        }
+        let sh = &c.as_ref().unwrap().2;
+        (sh.get(v as usize).copied().unwrap_or(0) + 1) % P
+    })
 }
